@@ -5,6 +5,8 @@ package main
 
 import (
 	"fmt"
+	"math"
+	"math/big"
 	"strings"
 
 	rwp "github.com/SKAARHOJ/rawpanel-lib/ibeam_rawpanel"
@@ -107,6 +109,51 @@ func goodSNum(r *Rng) string {
 		return fmt.Sprint(int32(uint32(r.U64())))
 	}
 	return pickS(r, sNumStrs)
+}
+
+
+// exact decimal expansion of a finite binary rational
+func exactDecimal(x *big.Float) string {
+	s := x.Text('f', 200)
+	if strings.Contains(s, ".") {
+		s = strings.TrimRight(s, "0")
+		if strings.HasSuffix(s, ".") {
+			s += "0"
+		}
+	}
+	return s
+}
+
+// numerals around the midpoint between float32 f and its successor: the midpoint itself
+// (tie), the midpoint with its last digit lowered / raised, and the midpoint followed by a
+// tail of digits far below float64 precision (a decoder that rounds through float64 first
+// lands ON the midpoint and then ties to even)
+func midpointNumerals(f float32) []string {
+	g := math.Float32frombits(math.Float32bits(f) + 1)
+	if math.IsInf(float64(g), 0) || math.IsNaN(float64(g)) || math.IsInf(float64(f), 0) || math.IsNaN(float64(f)) {
+		return nil
+	}
+	a := new(big.Float).SetPrec(400).SetFloat64(float64(f))
+	b := new(big.Float).SetPrec(400).SetFloat64(float64(g))
+	m := new(big.Float).SetPrec(400).Add(a, b)
+	m.Quo(m, big.NewFloat(2))
+	s := exactDecimal(m)
+	if !strings.Contains(s, ".") {
+		s += ".0"
+	}
+	out := []string{s, s + "0000000000000000000001", s + "000000000000000000000000000000000000001"}
+	// last digit -1 / +1 (no carry handling needed: skip when the digit is 0 or 9)
+	last := s[len(s)-1]
+	if last > '0' && last < '9' {
+		out = append(out, s[:len(s)-1]+string(last-1), s[:len(s)-1]+string(last+1))
+	}
+	// strictly below the midpoint by an amount invisible to float64
+	if last > '0' {
+		out = append(out, s[:len(s)-1]+string(last-1)+"99999999999999999999999999")
+	}
+	// 17 significant digits (what a float64 round trip prints)
+	out = append(out, fmt.Sprintf("%.17g", (float64(f)+float64(g))/2))
+	return out
 }
 
 // a strictly well-formed event line
@@ -439,6 +486,37 @@ func genC04(tier string, rng *Rng) {
 			one("float-zoo", "SysStat=CPUTemp:"+sg+f)
 		}
 	}
+	// (6b) long numerals at float32 rounding midpoints (nearest-even, single rounding)
+	nmid := 400
+	if thorough {
+		nmid = 6000
+	}
+	for i := 0; i < nmid; i++ {
+		var f float32
+		switch rng.Intn(4) {
+		case 0:
+			f = float32(rng.Range(-20000, 20000)) / 100
+		case 1:
+			f = math.Float32frombits(uint32(rng.U64()) & 0x7fffffff % 0x7f000000)
+		case 2:
+			f = float32(rng.Range(1, 200)) + float32(rng.Intn(1<<20))/float32(1<<20)
+		default:
+			f = math.Float32frombits(0x42600000 + uint32(rng.Intn(1<<16))) // around 56.0
+		}
+		f = float32(math.Abs(float64(f)))
+		for _, s := range midpointNumerals(f) {
+			if strings.ContainsAny(s, "eE") {
+				continue
+			}
+			fld := []string{"CPUTemp", "ExtTemp", "CPUVoltage"}[rng.Intn(3)]
+			sg := ""
+			if rng.Intn(4) == 0 {
+				sg = "-"
+			}
+			one("float-midpoint", "SysStat="+fld+":"+sg+s+":")
+		}
+	}
+	one("float-midpoint", "SysStat=CPUTemp:56.00000190734863282:")
 	// (7) registers
 	for i := 0; i < 800*scale; i++ {
 		one("registers", wfReg(rng))
